@@ -230,6 +230,12 @@ def decomposition_setup(rep: Report, prog: Program) -> None:
     rhs_alias.add(f"{f.positional_params()[0]}.rhs")
     vloops = [l for l in own_nodes(f.node) if isinstance(l, ast.For) and isinstance(l.iter, ast.Call) and callee_last(l.iter) == 'nodes' and norm(l.iter.func.value) in rhs_alias]
     ok = any(any(isinstance(x, ast.Assign) and isinstance(x.targets[0], ast.Subscript) and norm(x.targets[0].slice) == norm(l.target) for x in l.body) for l in vloops)
+    # or at once: g = {v: set() for v in rhs.nodes()} (no filter)
+    for n in own_nodes(f.node):
+        if isinstance(n, ast.DictComp) and len(n.generators) == 1 and not n.generators[0].ifs and norm(n.key) == norm(n.generators[0].target):
+            it = n.generators[0].iter
+            if isinstance(it, ast.Call) and callee_last(it) == 'nodes' and norm(it.func.value) in rhs_alias:
+                ok = True
     rep.ob(rule, f.fq(), 'every rhs node is a vertex of the primal graph', f.loc(), ok, '' if ok else 'isolated nodes would be missing from the decomposition')
     # cliques: attachment nodes of every edge, and the externals
     cl = [l for l in own_nodes(f.node) if isinstance(l, ast.For) and isinstance(l.iter, ast.BinOp) and isinstance(l.iter.op, ast.Add)]
